@@ -1470,7 +1470,7 @@ func runRFault(sc *streamScenario, rec *recorder, level int) {
 					}
 				}
 				for _, off := range offs {
-					if !seek && level < 2 && rg.intn(4) != 0 {
+					if !seek && level < 2 && rg.intn(4) != 0 && off != 0 {
 						continue
 					}
 					for _, partial := range []bool{true, false} {
@@ -1483,6 +1483,11 @@ func runRFault(sc *streamScenario, rec *recorder, level int) {
 							r = fsr
 						} else if rkind == "bufio" {
 							r = bufio.NewReaderSize(fr, []int{4096, 256, 193}[off%3]) // auto-detection peeks 193 bytes: smaller buffers cannot be used with it
+							if off == 0 && auto {
+								// ... except to be told why nothing at all could be read: a failure at offset 0 through a buffer too small for the
+								// detection window is still the reader's failure, not the end of the input
+								r = bufio.NewReaderSize(fr, 64)
+							}
 						}
 						rec.ev(M{"ev": "rstart", "off": off, "partial": partial, "seek": seek, "rkind": rkind})
 						dmx := newDemuxer(r, run)
